@@ -269,6 +269,7 @@ def gen_op(rng, flavour, kind, current, complete):
         args = [gen_value(rng) for _ in range(npos)]
         pool = list(flavour['names']) + (EXTRA_NAMES if flavour['open'] else [])
         keys = [k for k in pool if rng.random() < 0.45]
+        rng.shuffle(keys)  # keyword order is observable (``**kwargs`` actors, ``get_params()`` listings): any order
         kwargs = {k: gen_value(rng) for k in keys}
         if kind == 'update':
             if not args and not kwargs:
@@ -525,6 +526,14 @@ def run_scenario(ctx, env, scenario, force_xproc=False):  # pylint: disable=too-
             if got[0] != 'ok' or got[1][:2] != ('Spec', True) or not same(got[1][2:], (end[0], sorted(end[1].items()))):
                 case.report(f'pickle-builder-differs-{case.kind}-{how}', f'builder {label} came back as {got} expected {end}',
                             'pickle-builder', {'pickler': how})
+                return
+            order = attempt(lambda b=back, o=original: (list(dict(b.kwargs)), list(dict(o.kwargs))))
+            ctx.count('pickle_builder_order_checked')
+            if len(order[1][1]) > 1 and order[1][1] != sorted(order[1][1]):
+                ctx.count('pickle_builder_unsorted_order_checked')
+            if order[0] != 'ok' or order[1][0] != order[1][1]:
+                case.report(f'pickle-builder-keyword-order-{case.kind}-{how}', f'builder {label} keywords {order[1][1]} came back in the '
+                            f'order {order[1][0]}', 'pickle-builder', {'pickler': how})
                 return
         if label == 'A':
             builder_a = back
